@@ -3,6 +3,7 @@ package hx
 import (
 	"fmt"
 	"reflect"
+	"strings"
 	"time"
 
 	"github.com/vektah/gqlparser/v2"
@@ -108,6 +109,32 @@ func (c02) Run(c *Ctx, i int) CaseResult {
 	} else {
 		in, feats = GenFedInput(c, i+500000, "C02")
 		id = fmt.Sprintf("gen:%d", i)
+		if i%5 == 0 {
+			// several operations declaring the SAME variable name with different types and defaults: every
+			// step must carry the definition of its own operation
+			r := c.Rand(i + 500001)
+			type tmpl struct {
+				q    string
+				vars map[string]interface{}
+			}
+			ts := []tmpl{
+				{`query %s($k: ID!) { user(id: $k) { firstName lastName nick } }`, map[string]interface{}{"k": "u1"}},
+				{`query %s($k: Boolean!) { me { firstName lastName @include(if: $k) nick @skip(if: $k) } }`, map[string]interface{}{"k": true}},
+				{`query %s($k: Boolean = false) { allUsers { firstName nick @skip(if: $k) lastName } }`, map[string]interface{}{}},
+				{`query %s($k: ID = "u2") { user(id: $k) { nick lastName } }`, map[string]interface{}{}},
+				{`query %s($k: Boolean = true) { topPhoto { url likes @include(if: $k) owner { nick @include(if: $k) } } }`, map[string]interface{}{"k": false}},
+			}
+			r.Shuffle(len(ts), func(a, b int) { ts[a], ts[b] = ts[b], ts[a] })
+			n := 2 + r.Intn(2)
+			var ops []string
+			for k := 0; k < n; k++ {
+				ops = append(ops, fmt.Sprintf(ts[k].q, fmt.Sprintf("Op%d", k)))
+			}
+			pick := r.Intn(n)
+			in.Query, in.OpName, in.Vars = strings.Join(ops, " "), fmt.Sprintf("Op%d", pick), ts[pick].vars
+			in.OddIDs = false
+			feats = map[string]bool{"multi-operation-shared-variable-name": true}
+		}
 	}
 	res := CaseResult{ID: id, Key: fmt.Sprint(in.Spec.SDLs, in.Spec.Priorities, in.Query)}
 	fc, err := RunFed(c, in, 5*time.Second)
